@@ -14,9 +14,55 @@ GOENV = dict(os.environ, GOFLAGS='-mod=mod', GOPROXY='off', GOSUMDB='off', GOTOO
 from props import PROPS  # noqa: E402
 
 
+def _tree_rss_kb(pid):
+    """resident set of a process and its descendants (kB), from /proc"""
+    kids, total = {}, 0
+    for d in os.listdir('/proc'):
+        if d.isdigit():
+            try:
+                st = open('/proc/%s/stat' % d).read().rsplit(')', 1)[1].split()
+                kids.setdefault(int(st[1]), []).append(int(d))
+            except Exception:
+                pass
+    todo = [pid]
+    while todo:
+        q = todo.pop()
+        todo += kids.get(q, [])
+        try:
+            for line in open('/proc/%d/status' % q):
+                if line.startswith('VmRSS:'):
+                    total += int(line.split()[1])
+        except Exception:
+            pass
+    return total
+
+
 def sh(cmd, cwd=None, env=None, timeout=None, stdin=None):
     t0 = time.time()
     try:
+        if isinstance(cmd, list) and cmd and cmd[0] == 'lake':
+            # a runaway elaboration (e.g. `decide` on a huge term) must not take the machine down:
+            # kill the build when its process tree exceeds VERIF_LEAN_MEM_GB of resident memory
+            cap = int(os.environ.get('VERIF_LEAN_MEM_GB', '20')) * (1 << 20)
+            fo, fe = [open(os.devnull if False else os.path.join(BUILD, '.lake_out_%d_%s' % (os.getpid(), k)), 'w+') for k in 'oe']
+            p = subprocess.Popen(cmd, cwd=cwd, env=env, stdout=fo, stderr=fe, text=True, start_new_session=True)
+            killed = ''
+            while p.poll() is None:
+                time.sleep(1.0)
+                if timeout and time.time() - t0 > timeout:
+                    killed = '\n[timeout after %ss]' % timeout
+                elif _tree_rss_kb(p.pid) > cap:
+                    killed = '\n[killed: lake/lean exceeded %d GB resident memory]' % (cap >> 20)
+                if killed:
+                    try:
+                        os.killpg(p.pid, 9)
+                    except Exception:
+                        p.kill()
+                    p.wait()
+            outs = []
+            for f in (fo, fe):
+                f.seek(0); outs.append(f.read()); f.close(); os.remove(f.name)
+            return (p.returncode if not killed else -9), outs[0], outs[1] + killed, time.time() - t0
         p = subprocess.run(cmd, cwd=cwd, env=env, timeout=timeout, input=stdin,
                            stdout=subprocess.PIPE, stderr=subprocess.PIPE, text=True, errors='replace')
         return p.returncode, p.stdout, p.stderr, time.time() - t0
